@@ -133,3 +133,54 @@ Theorem C15_rulebook_moves_transform : forall g p m, Rules.wf_pos p -> In g syms
    (Generator.canonical (transform_move g m (size p)) /\
     exists p'', Rules.legal_step (transform_position g p) (transform_move g m (size p)) p'')).
 Proof. exact ComposeSymmetry.rulebook_moves_transform. Qed.
+
+(* ---- the same about SYMMETRIES / transform_position / transform_move / symmetries REGENERATED FROM THE SOURCE (gen/SymmetryGen.v, harness/sym2coq.py against model/NumpyLite.v + PySem.v; proofs/SymmetryGenEq.v, SymmetryGenCor.v) ---- *)
+From TV Require gen.Consts gen.GameGen gen.SymmetryGen.
+From TV Require Import model.Tak model.Road model.PySem model.Symmetry.
+From TV Require Import proofs.GameGenEq proofs.TieSymmetry proofs.SymmetryProofs proofs.SymmetryExamples.
+From TV Require Import proofs.SymmetryGenEq proofs.SymmetryGenCor.
+(* the module-level comprehension, evaluated with NumpyLite, yields the matrices of the running interpreter *)
+Theorem C15_source_symmetries_const :
+  SymmetryGen.SYMMETRIES = Ok Consts.symmetries.
+Proof. exact gen_symmetries_const. Qed.
+(* transform_position, translated, IS the hand model's: same position and no exception (the store indices stay in
+   range - C15_index_guard -, pos[i, j] is on the board, the unpackings have three values) *)
+Theorem C15_source_transform_position_eq :
+  forall g p, wf p -> 1 <= size p -> In g syms ->
+  SymmetryGen.transform_position g p = Ok (Symmetry.transform_position g p).
+Proof. exact gen_transform_position_eq. Qed.
+Theorem C15_source_transform_position_never_crashes :
+  forall g p, wf p -> 1 <= size p -> In g syms ->
+  forall e, SymmetryGen.transform_position g p <> Crash e.
+Proof. exact gen_transform_position_never_crashes. Qed.
+(* transform_move, translated, for EVERY move value and size: the hand model's move, no KeyError *)
+Theorem C15_source_transform_move_eq :
+  forall g m n, In g syms ->
+  SymmetryGen.transform_move g m n = Ok (Symmetry.transform_move g m n).
+Proof. exact gen_transform_move_eq. Qed.
+(* symmetries, translated *)
+Theorem C15_source_symmetries_eq :
+  forall p, wf p -> 1 <= size p ->
+  SymmetryGen.symmetries p = Ok (Symmetry.symmetries p).
+Proof. exact gen_symmetries_eq. Qed.
+(* C15_move_commutes on the translated functions of symmetry.py AND game.py *)
+Theorem C15_source_move_commutes :
+  forall g p m, wf p -> 1 <= size p -> In g syms -> slide_has_drops m ->
+  exists q m', SymmetryGen.transform_position g p = Ok q /\ SymmetryGen.transform_move g m (size p) = Ok m' /\
+    bind (GameGen.move p m) (SymmetryGen.transform_position g) = GameGen.move q m'.
+Proof. exact gen_move_commutes. Qed.
+(* C15_winner_invariant / ply_side_reserves on the translated functions *)
+Theorem C15_source_winner_invariant :
+  forall g p, wf p -> 1 <= size p -> In g syms ->
+  exists q, SymmetryGen.transform_position g p = Ok q /\ GameGen.winner q = GameGen.winner p /\
+            ply q = ply p /\ to_move q = to_move p /\ pos_stones q = pos_stones p.
+Proof. exact gen_winner_invariant. Qed.
+(* C15_symmetries_spec on the translated functions *)
+Theorem C15_source_symmetries_spec :
+  forall p, wf p -> 1 <= size p ->
+  exists l, SymmetryGen.symmetries p = Ok l /\
+    (exists rest, l = (mat_id, p) :: rest) /\
+    NoDup (map snd l) /\
+    (forall q, In q (map snd l) <-> exists g, In g syms /\ SymmetryGen.transform_position g p = Ok q) /\
+    (forall g q, In (g, q) l -> In g syms /\ SymmetryGen.transform_position g p = Ok q).
+Proof. exact gen_symmetries_spec. Qed.
